@@ -56,9 +56,12 @@ for f in ("f64", "f32"):
 
 
 for f in ("f32", "f64"):
-    reg(f"signed_area_fix_{f}", file="boolean/h_sa.rs", props={"C10": "quick", "C08": "thorough", "C15": "thorough"}, lemma="L-SA", inst=f, unwind=3, est_s=300, cap_s=2400, mem_gb=16,
-        domain="three points with fixed-point coordinates m*2^-10, |m| < 2^22 (2^23 values per axis, all f32-representable); orient2d replaced by the plain f64 determinant, which is exact on this domain",
-        claim=f"signed_area::<{f}>: exact sign (and value) of the determinant of (p0,p1,p2) in that order - the f32 instantiation widens losslessly before any arithmetic")
+    reg(f"signed_area_forwards_{f}", file="boolean/h_sa.rs", props={"C10": "quick"}, lemma="L-SA", inst=f, unwind=3, est_s=20, cap_s=900, mem_gb=12,
+        domain=f"three points with arbitrary finite {f} coordinates (full range); orient2d replaced by a recorder answering with an arbitrary value",
+        claim=f"signed_area::<{f}> evaluates the robust predicate exactly once, on the losslessly widened coordinates of (p0,p1,p2) in that order, and returns its value unchanged")
+reg("signed_area_orientation", file="boolean/h_sa.rs", props={"C10": "quick", "C15": "thorough"}, lemma="L-SA", inst="f64", unwind=3, est_s=120, cap_s=1500, mem_gb=12,
+    domain="three points with integer coordinates in -7..7; orient2d replaced by the plain determinant (exact here)",
+    claim="signed_area(p0,p1,p2) has the sign of the determinant of the points in that argument order")
 
 # --------------------------------------------------------------------------------------- L-CF (D-FLAGS)
 FLAGS = "complete flag space: operation x operand tags x (S,C) world x predecessor kind/verticality x stale state; geometry concrete"
@@ -193,8 +196,11 @@ for f in ("f64", "f32"):
 for k in ("lll", "llr", "lrr", "rrr"):
     reg(f"evord_triple_{k}", props={"C15": "thorough"}, lemma="L-ORD-E", inst="f64", est_s=900,
         domain="three segments on the 3 x 3 lattice window, pairwise valid", claim=f"event order transitive on triples ({k}: endpoint kinds)", **dict(ORD, cap_s=2700))
+reg("segord_oracle_f32_n3", props={"C15": "quick"}, lemma="L-ORD-S", inst="f32", est_s=400,
+    domain="two left events, endpoints on the 3 x 3 lattice window, any operand tags; same-operand overlaps excluded",
+    claim="compare_segments(a, b) for every ordered pair: never Equal for distinct segments, equals the vertical order of non-crossing pairs where separated (which is antisymmetric by construction), subject below for coincident edges, vertical-edge convention", **ORD)
 for nm, f in (("f32_n3_same", "f32"), ("f32_n3_diff", "f32"), ("f64_n3", "f64")):
-    reg(f"segord_pair_{nm}", props={"C15": "quick" if f == "f32" else "thorough", "C06": "thorough"}, lemma="L-ORD-S", inst=f, est_s=500,
+    reg(f"segord_pair_{nm}", props={"C15": "thorough", "C06": "thorough"}, lemma="L-ORD-S", inst=f, est_s=500,
         domain="two left events, endpoints on the 3 x 3 lattice window" + (", both of one operand (overlaps excluded)" if nm.endswith("same") else ", of different operands" if nm.endswith("diff") else ", any operand tags; same-operand overlaps excluded"),
         claim="compare_segments: Equal iff identical, antisymmetric, equals the vertical order of non-crossing pairs where separated, subject below for coincident edges, vertical-edge convention", **ORD)
 for f in ("f32", "f64"):
@@ -246,6 +252,7 @@ for _nm in ("left_chain", "right_chain", "zigzag_lr", "zigzag_rl", "balanced"):
     reg(f"sp_query3_{_nm}", props={"C17": "thorough"}, est_s=500, cap_s=2400,
         claim=f"3-node tree of shape {_nm}: get / next / prev with an arbitrary key agree with the reference and leave the contents intact",
         **dict(SEQ, unwind=4, mem_gb=30, domain="concrete initial shape (all five 3-node shapes have a harness), query kind and key symbolic"))
+_seq("sp_i_iter", "quick", 100)
 reg("sp_getmut_index", props={"C17": "quick"}, est_s=200, cap_s=1200, claim="get_mut, Index and IndexMut after two inserts with arbitrary keys agree with the reference", **SEQ)
 reg("sp_extend", props={"C17": "quick"}, est_s=300, cap_s=1500, claim="extend (incl. duplicate keys, later pairs replace earlier ones) against the reference; BST shape", **dict(SEQ, unwind=4))
 reg("sp_clear", props={"C17": "quick"}, est_s=60, cap_s=900, claim="clear() of each of the five 3-node shapes empties the map and leaves it usable", **dict(SEQ, unwind=8, domain="five concrete 3-node shapes"))
@@ -300,14 +307,14 @@ QUICK = {
     "C06": ["dispatch_predicate", "dispatch_empty_subject", "dispatch_empty_clipping", "dispatch_empty_both", "dispatch_union_multi1_multi1", "cf_twins_nonvert_pp1", "pi_ov_h0s"],
     "C07": ["dispatch_forward_poly_multi2", "dispatch_forward_multi2_multi1", "dispatch_forward_multi2_poly", "dispatch_named_methods", "fill_edge_f64", "fill_two_edges_real_first", "fill_ids_2h_2h", "fill_ids_1_1h", "fill_ids_0_2", "fill_ids_2_0"],
     "C08": ["int_scale_f32"],
-    "C10": ["nextafter_f64", "nextafter_f32", "int_classify_f32", "int_agree", "signed_area_fix_f32", "signed_area_fix_f64"],
-    "C13": ["fill_edge_f64", "fill_two_edges_real_first", "fill_two_edges_collapsed_first", "fill_ids_2h_2h", "fill_ids_0_2", "divide_contract_f64", "pi_none", "pi_point", "pi_ov_f5s", "sweep_protocol_mid_removed"],
+    "C10": ["nextafter_f64", "nextafter_f32", "int_classify_f32", "int_agree", "signed_area_forwards_f32", "signed_area_forwards_f64", "signed_area_orientation"],
+    "C13": ["fill_edge_f64", "fill_two_edges_real_first", "fill_two_edges_collapsed_first", "fill_ids_2h_2h", "fill_ids_0_2", "divide_contract_f64", "pi_none", "pi_point", "sweep_protocol_mid_removed"],
     "C14": ["cf_base", "cf_step_same_nonvert", "cf_step_diff_nonvert", "cf_step_same_vert", "cf_step_diff_vert", "cf_twins_nonvert_pp0", "cf_twins_nonvert_pp1", "cf_twins_nonvert_pp2", "cf_twins_vert_pp0", "cf_twins_vert_pp1"],
-    "C15": ["evord_ll_f64", "evord_lr_f64", "evord_rr_f64", "segord_pair_f32_n3_same", "segord_pair_f32_n3_diff"],
-    "C16": ["int_classify_f32", "int_swap_f32", "divide_contract_f64", "divide_ulp_f64", "pi_none", "pi_point", "pi_ov_v6s"],
-    "C17": ["sp_ii_get", "sp_ii_next", "sp_ii_prev", "sp_ii_minmax", "sp_ii_shape", "sp_ii_iter", "sp_ir_get", "sp_ir_shape", "sp_getmut_index", "sp_extend", "sp_clear", "sp_set_insert_lookup", "sp_set_neighbours_remove",
-            "sp_refstab3_left_chain", "sp_refstab3_right_chain", "sp_refstab3_zigzag_lr",
-            "sp_remove3_left_chain", "sp_remove3_right_chain", "sp_remove3_zigzag_lr",
+    "C15": ["evord_ll_f64", "evord_lr_f64", "evord_rr_f64", "segord_oracle_f32_n3"],
+    "C16": ["int_classify_f32", "divide_contract_f64", "divide_ulp_f64", "pi_none", "pi_point", "pi_ov_v6s"],
+    "C17": ["sp_ii_get", "sp_ii_next", "sp_ii_prev", "sp_ii_minmax", "sp_ii_shape", "sp_i_iter", "sp_ir_get", "sp_ir_shape", "sp_getmut_index", "sp_extend", "sp_clear", "sp_set_insert_lookup", "sp_set_neighbours_remove",
+            "sp_refstab3_left_chain", "sp_refstab3_zigzag_lr",
+            "sp_remove3_right_chain", "sp_remove3_zigzag_lr",
             ],
 }
 
